@@ -24,8 +24,11 @@ try:
         lines = [l for l in r.stdout.splitlines() if l.startswith(("VIOLATION", "  signature", "INCONCLUSIVE", "HELD")) or " quick:" in l or " thorough:" in l]
         verdict = {0: "MISSED (held)", 1: "CAUGHT", 2: "INCONCLUSIVE"}.get(r.returncode, f"rc={r.returncode}")
         print(f"== {p} {tier}: {verdict}")
-        for l in lines[:14]:
+        sigs = [l for l in lines if l.startswith("  signature")]
+        for l in sigs[:10] + [l for l in lines if not l.startswith(("  signature", "VIOLATION"))]:
             print("   ", l[:230])
+        if len(sigs) > 10:
+            print(f"    ... {len(sigs)} signatures in all")
         if r.returncode not in (0, 1, 2):
             print(r.stdout[-1500:], r.stderr[-1500:])
 finally:
